@@ -582,7 +582,17 @@ def main():
     if a.replay:
         import replay as rp
         sys.exit(rp.run_replay(a.pid, a.replay, seed))
-    sys.exit(run_check(a.pid, a.tier, seed))
+    try:
+        rc = run_check(a.pid, a.tier, seed)
+    except ExtractError as e:
+        print('NO-VERDICT: property=%s extraction / specification generation failed: %s' % (a.pid, str(e)[:600]))
+        rc = 2
+    except Exception as e:      # an internal error of the machinery is never a verdict about the code
+        import traceback
+        traceback.print_exc()
+        print('NO-VERDICT: property=%s internal error of the checker (%s: %s)' % (a.pid, type(e).__name__, str(e)[:300]))
+        rc = 2
+    sys.exit(rc)
 
 
 if __name__ == '__main__':
